@@ -209,6 +209,33 @@ package network
 //@   invariant keys-so-far: forall(j, 0, _i, keys[j] == _keyat(j))
 //@   invariant accumulates: acc[0] == relativeURL && finalURL == acc[_i] && forall(j, 0, _i, acc[j+1] == replaceAll(acc[j], sprintf("{%s}", keys[j]), sprintf("%v", pathParam[keys[j]])))
 
+// GeneralMultipartSerializer (the default RequestSerializerForMultipart): a failure comes back as a non-nil error with no
+// body and no content type; success is a nil error WITH a body.  "(nil, \"\", nil)" - no body, no error - is never returned,
+// so a form that cannot be serialized (a file that cannot be opened, a part that cannot be created) cannot turn into a
+// request without a body.  What the multipart writer puts into the buffer is inside mime/multipart and not specified here.
+//@ func GeneralMultipartSerializer
+//@   prop C17
+//@   requires form != nil
+//@   ensures error-or-body: (r2 != nil ==> untyped(r0) && r1 == "") && (r2 == nil ==> !untyped(r0))
+//@ func GeneralMultipartSerializer loop 0
+//@   invariant live: body != nil
+//@ func GeneralMultipartSerializer loop 1
+//@   invariant live: body != nil
+//@ func GeneralMultipartSerializer loop 2
+//@   invariant live: body != nil
+//@ func GeneralMultipartSerializer loop 3
+//@   invariant live: body != nil
+
+// The default JSON (de)serializers: the deserializer hands back the caller's own target (whatever encoding/json wrote into it)
+// together with Unmarshal's error; the serializer returns no body when Marshal fails.  What encoding/json reads and writes is
+// inside the library and not specified here.
+//@ func JSONBodyDeserializer
+//@   prop C17
+//@   ensures same-target: r0 == target
+//@ func JSONBodySerializer
+//@   prop C17
+//@   ensures error-no-body: r1 != nil ==> untyped(r0)
+
 // decodeResponseBody never panics: a read error or a deserializer error comes back as Err on the same response object; the
 // deserializer is called exactly once with the bytes read and the caller's target; its result becomes TargetObject only when it
 // is a *R (whatever a custom deserializer returns)
